@@ -50,12 +50,16 @@ CHECKS = {
    text="Every complete interleaving (plain DFS over 'which enabled task runs next', no partial-order reduction) of participants {register handler+guard | wait | finish}, early-exit participants, submit (once or twice) and completion (lock held across the await as endpoint/src/main.rs does) for 2 (quick) / up to 3+1 (thorough) participants on the real Shutdown through the crate's doors, on the harness's own single-threaded executor. Oracle: every participant registered before the submission gets Ok from wait(); completion() returns only when no issued guard is alive; no schedule ends with completion or a participant pending. Plus wind-down on the wire through the real accept path: HTTP/1.1 session closed, HTTP/2 session ends gracefully, session task ends, completion() returns.",
    note="Thread-level atomicity of std::sync::Mutex and tokio's broadcast/mpsc is trusted (each API call is one protected operation); worker-thread exhaustion by tasks blocked on the mutex is not modelled; QUIC close not driven.",
    tech="stateless model checking: exhaustive schedule enumeration of the real Shutdown under a harness-owned executor"),
+ "C13": dict(cat="exploration",
+   text="(A) every string of length 1..3 (quick) / 1..4 (thorough) over {a, space, \", ', \\, #, =, e-acute, emoji, TAB} as user name and as password, written in each of the 4 TOML string forms able to express it, with 1 or 2 [[client]] tables, comments and swapped key order, read through toml::from_str::<Settings>; the configured set, the RegistryBasedAuthenticator verdicts (pair accepted, trimmed/unquoted/unescaped neighbours rejected) and client_config::build(..).compose_toml() must carry exactly the written strings; (B) pairs through the real setup_wizard (non-interactive) and back through trusttunnel_endpoint -c; (C) the start-up truth table 4 listen addresses x credentials x 8 protocol subsets x 5 reverse-proxy sections x 6 host configurations x {builder, TOML} into Core::new: refused iff one of the documented reasons holds.",
+   note="TOML semantics = the toml crate's reading of each generated file (which also validates the harness's own writer).",
+   tech="bounded-exhaustive enumeration of inputs/configurations on the real deserialisers, authenticator, exporter and binaries vs string equality"),
 }
 NOT_YET = "check not built yet in this round (planned, see DESIGN.md section 3)"
 
 m = {
  "version": 1,
- "setup_cmd": "cd /verif/harness && CARGO_NET_OFFLINE=true cargo build --release --offline",
+ "setup_cmd": "cd /verif/harness && CARGO_NET_OFFLINE=true cargo build --release --offline && cd /repo && CARGO_NET_OFFLINE=true cargo build -p trusttunnel_endpoint -p trusttunnel_endpoint_tools --target-dir /verif/target/repo-bins --offline",
  "hooks": {
    "guard": "cargo feature `verif` of crate trusttunnel (lib/Cargo.toml)",
    "enable": "the harness depends on trusttunnel by path with features=[\"verif\"]: cd /verif/harness && cargo build --release --offline",
